@@ -6,6 +6,12 @@ impl HashSet<usize> {
     pub uninterp spec fn view(&self) -> Set<usize>;
     #[verifier::external_body]
     pub fn contains(&self, k: &usize) -> (r: bool) ensures r == self.view().contains(*k) { unimplemented!() }
+    /// number of members below i (a defined function of the view, no axiom)
+    pub open spec fn count_below(&self, i: int) -> int
+        decreases i
+    {
+        if i <= 0 { 0 } else { self.count_below(i - 1) + if self.view().contains((i - 1) as usize) { 1int } else { 0int } }
+    }
 }
 
 /// R18: `scorer_builder.build()` — proved in unit scorer_builder under `trie.len() <= 2^31` (first keys are U31 indices, so this
